@@ -116,16 +116,17 @@ def r6_1(run):
               "pandapipes.component_models.abstract_models.branch_w_internals_models.BranchWInternalsComponent.create_branch_lookups"):
         f = ix.func(q)
         run.analysed(f)
-        ifs = [n for n in own_walk(f.node) if isinstance(n, ast.If) and U(n.test).replace(" ", "") == "nottable_len"]
-        ok = len(ifs) == 1 and len(ifs[0].orelse) == 2
-        if ok:
-            a, b = ifs[0].orelse
-            ok = isinstance(a, ast.Assign) and U(a.value).replace(" ", "") == "-np.ones(table_indices.max()+1,dtype=np.int32)" \
-                and isinstance(b, ast.Assign) and U(b.targets[0]).replace(" ", "").endswith("[table_indices]") \
-                and U(b.value).replace(" ", "") == "np.arange(table_len)+current_start" \
-                and U(a.targets[0]) == U(b.targets[0].value)
-            ti = [U(v).replace(" ", "") for _, v, _ in assignments(f.node, "table_indices")]
-            ok = ok and ti == ["net[cls.table_name()].index"]
+        from ..arrnf import ANF, C, base_of, expect, key as tkey
+        ps = f.params()
+        alias = dict(zip(ps, ("cls", "net", "ft_lookups", "table_lookup", "idx_lookups", "current_start")))
+        rb = ANF(ix, f, param_alias=alias).run()
+        L = expect(ix, f, "net[cls.table_name()].index")
+        tbl = expect(ix, f, "cls.table_name()")
+        fills = [s_ for s_ in rb.stores() if s_.base == ("n", "idx_lookups") and s_.index == (tbl,)
+                 and tkey(s_.value) == tkey(expect(ix, f, "-np.ones(L.max() + 1, dtype=np.int32)", env={"L": L}))]
+        sets_ = [s_ for s_ in rb.stores() if s_.index == (L,) and fills and tkey(base_of(s_.base)) == tkey(fills[0].value)
+                 and tkey(s_.value) == tkey(expect(ix, f, "np.arange(len(L)) + current_start", env={"L": L}))]
+        ok = len(fills) == 1 and any(s_.seq > fills[0].seq and tkey(s_.cond) == tkey(fills[0].cond) for s_ in sets_)
         run.ob("builder|%s" % f.short, ok,
                "the index lookup is -1 everywhere and position+start at the table's labels", run.where(f, f.node))
     run.floor(25)
@@ -143,6 +144,11 @@ class OrderKinds:
         self.env = {}
         self.findings = []
         self.stores = []
+        self.range_names = None
+
+    def is_range(self, sl):
+        return isinstance(sl, ast.Slice) and self.range_names is not None and isinstance(sl.lower, ast.Name) and isinstance(sl.upper, ast.Name) \
+            and (sl.lower.id, sl.upper.id) == self.range_names and sl.step is None
 
     def run(self):
         self.block(self.fi.node.body)
@@ -152,6 +158,12 @@ class OrderKinds:
         for st in stmts:
             if isinstance(st, ast.Assign):
                 k = self.kind(st.value)
+                # `lo, hi = get_lookup(net, "branch", "from_to")[table]`: the component's row range in the pit
+                v = st.value
+                if isinstance(v, ast.Subscript) and isinstance(v.value, ast.Call) and callee_name(v.value) == "get_lookup" \
+                        and any(const_str(a) == "from_to" for a in v.value.args) and isinstance(st.targets[0], ast.Tuple) \
+                        and len(st.targets[0].elts) == 2 and all(isinstance(e, ast.Name) for e in st.targets[0].elts):
+                    self.range_names = tuple(e.id for e in st.targets[0].elts)
                 for t in st.targets:
                     self.bind(t, k, st.value)
             elif isinstance(st, ast.For):
@@ -229,11 +241,11 @@ class OrderKinds:
             base = self.kind_base(e.value)
             sl = e.slice
             if isinstance(sl, ast.Slice):
-                if base == PITALL and U(sl).replace(" ", "") == "f:t":
+                if base == PITALL and self.is_range(sl):
                     return PITCOMP
                 return base
             if isinstance(sl, ast.Tuple):
-                if isinstance(sl.elts[0], ast.Slice) and U(sl.elts[0]).replace(" ", "") == "f:t":
+                if self.is_range(sl.elts[0]):
                     return PITCOMP
                 ki = self.kind(sl.elts[0])
                 return self.index(e, base, ki)
@@ -259,7 +271,7 @@ class OrderKinds:
             return PITALL
         if s in ("branch_pit", "node_pit"):
             return PITALL
-        if isinstance(v, ast.Subscript) and isinstance(v.value, ast.Name) and v.value.id in ("res",):
+        if isinstance(v, ast.Subscript) and isinstance(v.value, ast.Name) and self.env.get(v.value.id) == SORTED:
             return SORTED
         return self.kind(v)
 
@@ -314,46 +326,86 @@ def r6_2(run):
         run.ob("with-internals|store|%s" % U(t).replace(" ", "")[:70], not (ki == TOP and kv in (SORTED, ELEM)),
                "result rows (%s) and stored values (%s) are in the same order" % (ki, kv), run.where(f, t))
     # the placement table really converts sorted order into table rows
-    pt = [U(v).replace(" ", "") for _, v, _ in assignments(f.node, "placement_table")]
-    run.ob("with-internals|placement-table", pt == ["np.argsort(net[table_name].index.values)"],
-           "placement_table = argsort of the table index (sorted position -> table row)", w, detail=str(pt))
+    from ..arrnf import ANF, expect, key as tkey, walk
+    ra = ANF(ix, f).run()
+    want = expect(ix, f, "np.argsort(net[%s].index.values)" % f.params()[2])
+    n_pt = sum(1 for x in (t for e in ra.events for t in ([e.value] + list(e.index) if e.kind == "store" else [])) for y in walk(x) if tkey(y) == tkey(want))
+    placement = [k for k, v in ok_.env.items() if v == SORT2TABLE]
+    run.ob("with-internals|placement-table", len(placement) == 1 and n_pt >= 1,
+           "the rows of sorted-order results are selected through argsort of the table index (sorted position -> table row)", w,
+           detail=str(placement))
     run.floor(5)
 
 
 def r6_3(run):
+    """contract of the grouping helper the order kinds rely on: (unique group keys in increasing order, one sum per value array).
+    Decided on whole-function terms (arrnf), independent of local names; the numba dense kernel itself is a loop over data-
+    dependent indices and is not decided (its agreement with the numpy path is an assumption)"""
+    from ..arrnf import ANF, C, FULL, base_of, contains, expect, key as tkey, match, norm_cond, show as tshow, walk
     ix = run.index
-    f = ix.func(IT + "._sum_by_group_numba")
-    run.analysed(f)
-    w = run.where(f, f.node)
-    ifs = [n for n in own_walk(f.node) if isinstance(n, ast.If) and "max_ind" in U(n.test)]
-    ok = len(ifs) == 1 and any(isinstance(x, ast.Return) for x in ifs[0].body)
-    last = f.node.body[-1]
-    ok = ok and isinstance(last, ast.Return) and callee_name(last.value) == "_sum_by_group_np"
-    run.ob("numba|falls-back-outside-bound", ok,
-           "_sum_by_group_numba uses the dense kernel only under its index bound and otherwise the numpy implementation", w)
-    rets = [n for n in ast.walk(f.node) if isinstance(n, ast.Return)]
-    shapes = [U(r.value).replace(" ", "") for r in rets]
-    run.ob("numba|returns-indices-then-sums", any(s.startswith("tuple([new_ind.astype(ind_dt)]+") for s in shapes),
-           "the dense path returns (indices in the caller's dtype, one summed array per value array)", w, detail=str(shapes))
-    k = ix.func(IT + "._sum_values_by_index")
-    src = [U(n).replace(" ", "") for n in ast.walk(k.node) if isinstance(n, (ast.Assign, ast.AugAssign))]
-    ok = "summed_values[int(ind1[i]),j]+=value_arr[i,j]" in src and "summed_values=summed_values[new_indices>0]" in src \
-        and "new_indices=new_indices[new_indices>0]-1" in src
-    run.ob("numba|dense-kernel-sorted-unique", ok,
-           "the dense kernel accumulates per index and returns the occupied indices in increasing order", run.where(k, k.node))
-    g_ = ix.func(IT + "._sum_by_group_sorted")
-    src = [U(n).replace(" ", "") for n in ast.walk(g_.node) if isinstance(n, ast.Assign)]
-    ok = "index[:-1]=indices[1:]!=indices[:-1]" in src and "indices=indices[index]" in src
-    run.ob("numpy|unique-sorted", ok, "the numpy path returns the unique indices of the sorted index array", run.where(g_, g_.node))
-    np_ = ix.func(IT + "._sum_by_group_np")
-    src = [U(n).replace(" ", "") for n in ast.walk(np_.node) if isinstance(n, ast.Assign)]
-    ok = "order=np.argsort(indices)" in src and "indices=indices[order]" in src and "val[i]=val[i][order]" in src
-    run.ob("numpy|sorts-indices-and-values-together", ok, "indices and every value array are permuted by the same argsort", run.where(np_, np_.node))
     sel = ix.func(IT + "._sum_by_group")
-    rets = [U(r.value).replace(" ", "") for r in ast.walk(sel.node) if isinstance(r, ast.Return)]
-    run.ob("dispatch", sorted(set(rets)) == ["_sum_by_group_np(indices,*values)", "_sum_by_group_numba(indices,*values)"],
-           "_sum_by_group dispatches to the two implementations with identical arguments", run.where(sel, sel.node))
-    run.floor(6)
+    f_np, f_nb, f_sorted = ix.func(IT + "._sum_by_group_np"), ix.func(IT + "._sum_by_group_numba"), ix.func(IT + "._sum_by_group_sorted")
+    for g_ in (sel, f_np, f_nb, f_sorted):
+        run.analysed(g_)
+    ps = sel.params()
+    r = ANF(ix, sel, param_alias={ps[0]: "use_numba", ps[1]: "indices"}).run()
+    va = sel.node.args.vararg.arg if sel.node.args.vararg else None
+    rets = r.returns()
+    targets = set()
+    same_args = True
+    for e in rets:
+        v = e.value
+        if v[0] == "call" and v[1][0] == "f":
+            targets.add(v[1][1])
+            same_args = same_args and v[2] == (("n", "indices"), ("star", ("n", va)))
+    no_numba = [e for e in rets if any(norm_cond(c, p) == (("n", "use_numba"), False) for c, p in e.cond)]
+    run.ob("dispatch", targets == {f_np.qualname, f_nb.qualname} and same_args and bool(no_numba)
+           and all(e.value[1][1] == f_np.qualname for e in no_numba),
+           "_sum_by_group dispatches to the two implementations with identical arguments and to the numpy one without numba", run.where(sel, sel.node))
+    # numba wrapper: dense kernel under a bound on the largest index, numpy implementation otherwise
+    ps = f_nb.params()
+    r = ANF(ix, f_nb, param_alias={ps[0]: "indices"}).run()
+    va = f_nb.node.args.vararg.arg
+    rets = sorted(r.returns(), key=lambda e: e.seq)
+    w = run.where(f_nb, f_nb.node)
+    last = rets[-1] if rets else None
+    fb = last is not None and last.value == ("call", ("f", f_np.qualname), (("n", "indices"), ("star", ("n", va))), ()) and not last.cond
+    dense = [e for e in rets if any(x[0] == "call" and x[1][0] == "f" and x[1][1].endswith("._sum_values_by_index") for x in walk(e.value))]
+    bound = bool(dense) and all(any(contains(c, ("call", ("f", IT + ".max_nb"), (("n", "indices"),), ())) or "max" in tshow(c) for c, p in e.cond) for e in dense)
+    run.ob("numba|falls-back-outside-bound", fb and bound,
+           "_sum_by_group_numba uses the dense kernel only under its index bound and otherwise the numpy implementation", w)
+    ok = False
+    for e in dense:
+        v = e.value
+        if v[0] == "call" and v[1] == ("x", "builtins.tuple") and v[2] and v[2][0][0] == "op" and v[2][0][1] == "++":
+            first, rest = v[2][0][2], v[2][0][3]
+            K = [x for x in walk(first) if x[0] == "proj" and x[2] == 0]
+            S = [x for x in walk(rest) if x[0] == "proj" and x[2] == 1]
+            ok = first[0] == "list" and len(first[1]) == 1 and bool(K) and bool(S) and tkey(K[0][1]) == tkey(S[0][1])
+    run.ob("numba|returns-indices-then-sums", ok,
+           "the dense path returns (group keys, then one summed array per value array) of one kernel call", w)
+    # numpy path: one permutation for keys and values, then unique keys of the sorted keys
+    ps = f_np.params()
+    r = ANF(ix, f_np, param_alias={ps[0]: "indices"}).run()
+    order = expect(ix, f_np, "np.argsort(indices)")
+    rets = r.returns()
+    ok = len(rets) == 1 and rets[0].value[0] == "call" and rets[0].value[1] == ("f", f_sorted.qualname) \
+        and tkey(rets[0].value[2][0]) == tkey(("idx", ("n", "indices"), (order,)))
+    st = [s_ for s_ in r.stores() if s_.loops]
+    ok = ok and len(st) == 1 and st[0].value[0] == "idx" and st[0].value[2] == (order,) and st[0].index == (("loop", st[0].loops[-1], 0),) \
+        and st[0].value[1] == ("idx", base_of(st[0].base), st[0].index)
+    run.ob("numpy|sorts-indices-and-values-together", ok, "indices and every value array are permuted by the same argsort",
+           run.where(f_np, f_np.node))
+    ps = f_sorted.params()
+    r = ANF(ix, f_sorted, param_alias={ps[0]: "indices"}).run()
+    rets = r.returns()
+    mask = ("upd", expect(ix, f_sorted, "np.ones(len(indices), 'bool')"), (("slice", C(None), C(-1), C(None)),),
+            expect(ix, f_sorted, "indices[1:] != indices[:-1]"))
+    keys = ("idx", ("n", "indices"), (mask,))
+    ok = len(rets) == 1 and rets[0].value[0] == "op" and rets[0].value[1] == "++" and rets[0].value[2] == ("list", (keys,))
+    run.ob("numpy|unique-sorted", ok, "the numpy path returns first the last-of-run selection of the sorted keys (the unique keys), then the sums",
+           run.where(f_sorted, f_sorted.node), detail=tshow(rets[0].value)[:200] if rets else None)
+    run.floor(5)
 
 
 def r6_4(run):
@@ -386,11 +438,21 @@ def r6_4(run):
                    "net._lookups[%r][%r] (one row per element) is indexed with branch_index[%s][labels] - start of the table"
                    % (r["kind"], r["table"], r["table"]), run.where(r["fi"], r["node"]), detail=why)
     # the structure really has one row per element and offset-free rows for branches
+    from ..arrnf import ANF, FULL, C, base_of, expect, key as tkey
     g_ = ix.func("pandapipes.component_models.component_toolbox.get_internal_lookup_structure")
-    src = [U(x).replace(" ", "") for x in ast.walk(g_.node) if isinstance(x, ast.Assign)]
-    ok = "internals[table_name]=np.empty((len(internal_elements),2),dtype=np.int32)" in src and "end=np.cumsum(internal_elements)-1+start" in src
+    ps = g_.params()
+    rg = ANF(ix, g_, param_alias=dict(zip(ps, ("internals", "table_name", "n", "start")))).run()
+    st = rg.stores()
+    alloc = [s_ for s_ in st if s_.base == ("n", "internals") and s_.index == (("n", "table_name"),)]
+    first = [s_ for s_ in st if s_.index == (FULL, C(0))]
+    last = [s_ for s_ in st if s_.index == (FULL, C(1))]
+    ok = len(alloc) == 1 and tkey(alloc[0].value) == tkey(expect(ix, g_, "np.empty((len(n), 2), dtype=np.int32)")) \
+        and len(first) == 1 and len(last) == 1 \
+        and tkey(last[0].value) == tkey(expect(ix, g_, "np.cumsum(n) - 1 + start")) \
+        and tkey(first[0].value) == tkey(expect(ix, g_, "(np.cumsum(n) - 1 + start) - (n - 1)"))
     run.ob("get_internal_lookup_structure|one-row-per-element", ok,
-           "the internal lookup has one (first, last) row per element, offset by `start`", run.where(g_, g_.node))
+           "the internal lookup has one (first, last) row per element: last = cumsum(n) - 1 + start, first = last - (n - 1)",
+           run.where(g_, g_.node))
     bl = ix.func("pandapipes.component_models.abstract_models.branch_w_internals_models.BranchWInternalsComponent.create_branch_lookups")
     cs = [c_ for c_ in calls(bl.node, "get_internal_lookup_structure")]
     run.ob("branch-internal-lookup|offset-free", len(cs) == 1 and len(cs[0].args) == 3,
